@@ -9,6 +9,7 @@
 #include "des.h"
 
 double des_tscale = 1.0, des_t0 = 0.0;
+struct cmb_process des_arena[DES_NARENA];
 
 #include <math.h>
 #include <stdarg.h>
@@ -165,6 +166,26 @@ static void configure(void)
     if (D.P > MAXP) {
         D.P = MAXP;
     }
+    /* where the process objects live: side by side, or (collide=1) in slots of the arena whose addresses - the keys
+     * under which a guard's waiting list and a pool's holder list file a process - all hash to the same place in maps
+     * of up to 64 entries (top six bits of the Fibonacci product equal): lookups then have to probe past one another */
+    {
+        int chosen = 0;
+        if (vx_opt_int("collide", 0)) {
+            for (unsigned want = 0; want < 64 && chosen < MAXP; want++) {
+                chosen = 0;
+                for (int i = 0; i < DES_NARENA && chosen < MAXP; i++) {
+                    const uint64_t key = (uint64_t)(uintptr_t)&des_arena[i];
+                    if (((key * UINT64_C(11400714819323198485)) >> 58) == want) {
+                        D.procp[chosen++] = &des_arena[i];
+                    }
+                }
+            }
+        }
+        for (int p = chosen < MAXP ? 0 : MAXP; p < MAXP; p++) {
+            D.procp[p] = &des_arena[p];
+        }
+    }
     int64_t tmp[MAXP];
     parse_ints(vx_opt("prios", "0"), tmp, MAXP, 0);
     for (int p = 0; p < MAXP; p++) {
@@ -273,7 +294,7 @@ void des_residue(int p, const char *sig, const char *fmt, ...)
 int des_pidx(const struct cmb_process *pp)
 {
     for (int p = 0; p < D.P; p++) {
-        if (pp == &D.procs[p]) {
+        if (pp == &(*D.procp[p])) {
             return p;
         }
     }
@@ -305,7 +326,7 @@ bool des_in_guard(const struct cmb_resourceguard *g, int p)
         return false;
     }
     for (uint64_t j = 1; j <= hp->heap_count; j++) {
-        if (hp->heap[j].item[0] == (void *)&D.procs[p]) {
+        if (hp->heap[j].item[0] == (void *)&(*D.procp[p])) {
             return true;
         }
     }
@@ -354,7 +375,7 @@ bool des_pred_eval(int k)
 
 static bool proc_started(int q)
 {
-    return D.inited[q] && cmb_process_status(&D.procs[q]) == CMB_PROCESS_RUNNING;
+    return D.inited[q] && cmb_process_status(&(*D.procp[q])) == CMB_PROCESS_RUNNING;
 }
 
 static bool enabled(int p, const struct opdef *od)
@@ -448,7 +469,7 @@ static uint64_t canon_hash(void)
     uint64_t h = vx_hash_bytes(11, &t, sizeof t);
     for (int p = 0; p < D.P; p++) {
         h = vx_mix(h, (uint64_t)D.pstate[p] * 64 + (uint64_t)D.endroute[p] * 8 + (uint64_t)D.incarnation[p]);
-        h = vx_mix(h, (uint64_t)D.procs[p].priority);
+        h = vx_mix(h, (uint64_t)(*D.procp[p]).priority);
         h = vx_mix(h, (uint64_t)D.budget[p] * 256 + (uint64_t)D.step[p]);
         if (D.cur[p].active) {
             h = vx_mix(h, vx_hash_str(5, D.cur[p].od->name));
@@ -457,7 +478,7 @@ static uint64_t canon_hash(void)
         }
         if (D.inited[p]) {
             uint64_t racc = 0;
-            for (const struct cmi_slist_head *r = D.procs[p].resources.next; r; r = r->next) {
+            for (const struct cmi_slist_head *r = (*D.procp[p]).resources.next; r; r = r->next) {
                 const struct cmi_process_holdable *ph = cmi_container_of(r, struct cmi_process_holdable, listhead);
                 racc += vx_mix((uint64_t)((const char *)ph->res - (const char *)&D) + 3, 9);
             }
@@ -467,11 +488,11 @@ static uint64_t canon_hash(void)
         /* awaits list: types and (for timers) nothing else: the events are hashed below */
         uint64_t acc = 0;
         if (D.inited[p]) {
-            for (const struct cmi_slist_head *a = D.procs[p].awaits.next; a; a = a->next) {
+            for (const struct cmi_slist_head *a = (*D.procp[p]).awaits.next; a; a = a->next) {
                 const struct cmi_process_awaitable *aw = cmi_container_of(a, struct cmi_process_awaitable, listhead);
                 acc += vx_mix(aw->type + 1, 3);
             }
-            for (const struct cmi_slist_head *a = D.procs[p].waiters.next; a; a = a->next) {
+            for (const struct cmi_slist_head *a = (*D.procp[p]).waiters.next; a; a = a->next) {
                 const struct cmi_process_waiter *w = cmi_container_of(a, struct cmi_process_waiter, listhead);
                 acc += vx_mix((uint64_t)des_pidx(w->proc) + 1, 5);
             }
@@ -490,7 +511,7 @@ static uint64_t canon_hash(void)
         h = vx_mix(h, D.pool.in_use);
         h = vx_mix(h, guard_hash(&D.pool.guard));
         for (int p = 0; p < D.P; p++) {
-            h = vx_mix(h, cmb_resourcepool_held_by_process(&D.pool, &D.procs[p]));
+            h = vx_mix(h, cmb_resourcepool_held_by_process(&D.pool, &(*D.procp[p])));
         }
     }
     if (D.has_buf) {
@@ -582,8 +603,33 @@ static uint64_t canon_hash(void)
     return h;
 }
 
+/* the handle queries agree with the set of events still pending, whether or not processes wait for them */
+static void check_event_queries(void)
+{
+    uint64_t pending = 0;
+    for (int k = 0; k < NENVEV; k++) {
+        const bool sched = D.envev[k] != 0 && cmb_event_is_scheduled(D.envev[k]);
+        pending += sched;
+        const uint64_t found = cmb_event_pattern_find(env_action, CMB_ANY_SUBJECT, (void *)(uintptr_t)(k + 1));
+        if (found != (sched ? D.envev[k] : 0)) {
+            VFAIL("c01:pattern-find-disagrees", "event %" PRIu64 " (object %d) is %s, cmb_event_pattern_find says %" PRIu64,
+                  D.envev[k], k + 1, sched ? "scheduled" : "not scheduled", found);
+            return;
+        }
+    }
+    const uint64_t counted = cmb_event_pattern_count(env_action, CMB_ANY_SUBJECT, CMB_ANY_OBJECT);
+    if (counted != pending) {
+        VFAIL("c01:pattern-count-disagrees", "%" PRIu64 " events of that action are scheduled, cmb_event_pattern_count says %" PRIu64,
+              pending, counted);
+    }
+}
+
 static void observe(void)
 {
+    if (D.abandon) {
+        return;
+    }
+    check_event_queries();
     if (D.abandon) {
         return;
     }
@@ -633,7 +679,7 @@ static int64_t do_op(int p, const struct opdef *od)
     c->ev_at_call = D.nevents;
     c->seq = ++D.ncalls;
     c->active = true;
-    struct cmb_process *me = &D.procs[p];
+    struct cmb_process *me = &(*D.procp[p]);
     const int q = (int)od->a;
     int64_t ret = 0;
     uint64_t amount;
@@ -692,7 +738,7 @@ static int64_t do_op(int p, const struct opdef *od)
         break;
     case K_TCLEARO:
         /* somebody else clears the timers of a (typically suspended) process */
-        cmb_process_timers_clear(&D.procs[q]);
+        cmb_process_timers_clear(&(*D.procp[q]));
         D.ntimers[q] = 0;
         break;
     case K_YIELD:
@@ -701,20 +747,20 @@ static int64_t do_op(int p, const struct opdef *od)
         break;
     case K_RESUME:
         D.resume_pending[q] = true;
-        cmb_process_resume(&D.procs[q], od->b ? sig_resume(p) : 0);
+        cmb_process_resume(&(*D.procp[q]), od->b ? sig_resume(p) : 0);
         break;
     case K_WAITP:
-        ret = cmb_process_wait_process(&D.procs[q]);
+        ret = cmb_process_wait_process(&(*D.procp[q]));
         break;
     case K_WAITE:
         c->in = D.envev[q];
         ret = cmb_process_wait_event(D.envev[q]);
         break;
     case K_INT:
-        cmb_process_interrupt(&D.procs[q], sig_interrupt(p, (int)od->b), od->b == 8 ? 5 : 0);
+        cmb_process_interrupt(&(*D.procp[q]), sig_interrupt(p, (int)od->b), od->b == 8 ? 5 : 0);
         break;
     case K_STOP:
-        cmb_process_stop(&D.procs[q], (void *)(uintptr_t)(0x500 + p));
+        cmb_process_stop(&(*D.procp[q]), (void *)(uintptr_t)(0x500 + p));
         D.pstate[q] = PS_ENDED;
         D.endroute[q] = ER_STOPPED;
         D.t_end[q] = cmb_time();
@@ -740,7 +786,7 @@ static int64_t do_op(int p, const struct opdef *od)
         /* not reached */
         break;
     case K_PRIO:
-        cmb_process_priority_set(&D.procs[q], od->b);
+        cmb_process_priority_set(&(*D.procp[q]), od->b);
         break;
     case K_RACQ:
         ret = cmb_resource_acquire(&D.res[q]);
@@ -817,14 +863,14 @@ static int64_t do_op(int p, const struct opdef *od)
             VFAIL("c13:cancel-undefined", "cmb_condition_cancel is declared in cmb_condition.h but not defined by the library");
             break;
         }
-        ret = cmb_condition_cancel(&D.cond, &D.procs[q]);
+        ret = cmb_condition_cancel(&D.cond, &(*D.procp[q]));
         break;
     case K_CREMOVE:
         if (cmb_condition_remove == NULL) {
             VFAIL("c13:remove-undefined", "cmb_condition_remove is declared in cmb_condition.h but not defined by the library");
             break;
         }
-        ret = cmb_condition_remove(&D.cond, &D.procs[q]);
+        ret = cmb_condition_remove(&D.cond, &(*D.procp[q]));
         break;
     case K_CSUB:
         cmb_condition_subscribe(&D.cond, &D.res[0].guard);
@@ -884,7 +930,7 @@ static int64_t do_op(int p, const struct opdef *od)
     case K_START:
         D.pstate[q] = PS_STARTPENDING;
         D.endroute[q] = ER_NONE;
-        cmb_process_start(&D.procs[q]);
+        cmb_process_start(&(*D.procp[q]));
         break;
     default:
         break;
@@ -1000,7 +1046,7 @@ static void *proc_body(struct cmb_process *me, void *ctx)
     D.incarnation[p]++;
     D.step[p] = 0;
     vx_trace("  [t=%g] P%d body entered (incarnation %d)\n", cmb_time(), p, D.incarnation[p]);
-    if (me != &D.procs[p]) {
+    if (me != &(*D.procp[p])) {
         VFAIL("driver:body-handle", "process function of P%d received a wrong handle", p);
     }
     MON(on_body_enter, p);
@@ -1280,8 +1326,8 @@ static void run_one(void)
     for (int p = 0; p < P; p++) {
         char nm[8];
         snprintf(nm, sizeof nm, "P%d", p);
-        memset(&D.procs[p], 0, sizeof D.procs[p]);
-        cmb_process_initialize(&D.procs[p], nm, proc_body, (void *)(intptr_t)p, D.prio0[p]);
+        memset(&(*D.procp[p]), 0, sizeof (*D.procp[p]));
+        cmb_process_initialize(&(*D.procp[p]), nm, proc_body, (void *)(intptr_t)p, D.prio0[p]);
         D.inited[p] = true;
     }
     for (int k = 0; k < cfg_preload; k++) {
@@ -1292,7 +1338,7 @@ static void run_one(void)
     const int autostart = (int)vx_opt_int("autostart", P);
     for (int p = 0; p < nstart && p < autostart; p++) {
         D.pstate[p] = PS_STARTPENDING;
-        cmb_process_start(&D.procs[p]);
+        cmb_process_start(&(*D.procp[p]));
     }
     observe();
 
@@ -1347,9 +1393,9 @@ static void run_one(void)
 
     /* tear down without running any library clean-up code on abandoned processes */
     for (int p = 0; p < P; p++) {
-        if (D.procs[p].core.stack != NULL) {
-            free(D.procs[p].core.stack);
-            D.procs[p].core.stack = NULL;
+        if ((*D.procp[p]).core.stack != NULL) {
+            free((*D.procp[p]).core.stack);
+            (*D.procp[p]).core.stack = NULL;
         }
     }
     terminate_objects(true);
